@@ -146,6 +146,7 @@ class Kernel(object):
         self.pipes = None           # PipeTable or None
         self.external = {}          # pid -> KProc not children of the daemon (unrelated processes)
         self.spawn_cost = 0.001
+        self.kill_latency = 0.0005    # a SIGKILLed process needs a moment to become a zombie (never instantaneous on a real kernel)
 
     # ------------------------------------------------------------------ time / injections
     def tick(self, entry):
@@ -266,7 +267,11 @@ class Kernel(object):
         if sig == 0 or p.state != 'alive':
             return
         if sig == SIGKILL:
-            self._die(p, status_signal(SIGKILL), 'sigkill')
+            when = self.clock.now + self.kill_latency
+            if self.kill_latency <= 0:
+                self._die(p, status_signal(SIGKILL), 'sigkill')
+            elif p.die_at is None or when < p.die_at[0]:
+                p.die_at = (when, status_signal(SIGKILL))
         elif sig in (SIGSTOP, int(_signal.SIGCONT), int(_signal.SIGCHLD), int(_signal.SIGWINCH),
                      int(_signal.SIGURG)):
             return
